@@ -53,6 +53,7 @@ type ComDoc struct {
 	rootStorage int     // index into files
 	rootFiles   []int   // index into Files
 	msatList    []SecID // list of sector IDs holding a MSAT
+	shortStream []SecID // list of sector IDs holding the short sector stream
 	writer      *os.File
 	closer      io.Closer
 }
